@@ -15,6 +15,7 @@ LATE = {
  'C05-c': 'the clone harness only built targets with capacity 0 or the source capacity',
  'C11-f': 'the obligation "length untouched when a fixed-capacity backend refuses to grow" was added for this round, but the runner accepted ANY failure located in the refusing function as the expected panic and so hid it: the runner now never treats a contract assertion of the harness module as an expected failure',
  'C18-f': 'state at a library panic was not observable (Kani has no unwinding): core\'s unwrap/expect panic entry points are now replaced by observing twins that assert the HeapMem still describes the allocation it owns',
+ 'C03-g': 'no harness called an overridable provided method of the range iterators; the mutant adds O(1) `nth`/`nth_back` overrides that skip without destroying. Added the nth / nth_back contract (k1_handles::range_nth_h: skipped elements are destroyed, each once)',
  'C01-c': 'the copy_bytes contract harness had no unwind bound, so a new loop without invariant made it run into the time limit (exit 2) instead of failing; it now has one, and a real-memory insert harness on 1-byte elements (k3_insert_u8) was added',
 }
 rows = []
@@ -46,11 +47,11 @@ txt = '''
 
 Fresh sub-agents were each given only the text of one property and a scratch worktree of /repo (nothing from
 /verif) and asked for two changes that break the property, still compile and pass the 44 tests, and need
-something specific to manifest. Round 1: 18 agents (one per claimed property); rounds 2 and 3: 10 + 6 agents, told only which
-*functions* earlier rounds had already used. All %d changes
+something specific to manifest. Round 1: 18 agents (one per claimed property); rounds 2, 3 and 4: 10 + 6 + 5 agents, told only which
+*functions* earlier rounds had already used (round 4 was asked for two cooperating sites or multi-step histories). All %d changes
 were confirmed by me in the scratch worktree (`tools/seed_eval.sh`: suite green with the patch, demo fails with /
 passes without) and are kept under `/verif/seeded/<id>/` (`patch.diff`, `demo.rs`, `notes.md`, `meta.json`; ids
-`-a/-b` round 1, `-c/-d` round 2, `-e/-f` round 3). `seeded/harmless-1` is the opposite: a behaviour-preserving refactor that must
+`-a/-b` round 1, `-c/-d` round 2, `-e/-f` round 3, `-g/-h` round 4). `seeded/harmless-1` is the opposite: a behaviour-preserving refactor that must
 NOT be reported.
 
 Every seeded change is reported as a VIOLATION by the **quick** check of its property. Honest accounting: %d of
